@@ -151,6 +151,21 @@ def check_case(case) -> Result:
     if o['max_isotopes'] is not None and len(dist) > o['max_isotopes']:
         r.fail('at most max_isotopes peaks', 'C14/max-isotopes-exceeded', got=len(dist), **ctx)
 
+    # a reporting threshold only removes peaks: what is left is the unthresholded pattern without the peaks below the threshold
+    # (relative to the largest peak), peak for peak
+    if o['min_abundance'] and o['max_isotopes'] is None and elements:
+        kw0 = dict(kw, min_abundance_threshold=None, distribution_abundance=1.0, is_abundance_sum=False)
+        full = pt.isotopic_distribution(dict(comp), **kw0)
+        t = o['min_abundance']
+        top_t = max(a for _m, a in dist)
+        got_t = {m: a / top_t for m, a in dist}
+        exp_t = {m: a for m, a in full if a >= t}
+        near = {m for m, a in full if abs(a - t) <= 1e-6 * t + 1e-12}
+        bad = [m for m in set(got_t) | set(exp_t) if m not in near and abs(got_t.get(m, 0.0) - exp_t.get(m, 0.0)) > 1e-9]
+        if bad:
+            r.fail('with a reporting threshold the pattern is the full pattern without the peaks below the threshold', 'C14/threshold/pattern-differs-from-filtered-full-pattern',
+                   masses=sorted(bad)[:8], got=[got_t.get(m) for m in sorted(bad)[:8]], expected=[exp_t.get(m) for m in sorted(bad)[:8]], **ctx)
+
     res = o['resolution']
     ne = len(elements) + 1
     part_off = sum(refchem.atom_mass(k) * v for k, v in comp.items() if k in ('e', 'p', 'n'))
